@@ -29,6 +29,33 @@ fn main() {
     if args[1] == "replay" {
         std::process::exit(checks::replay(&args[2]));
     }
+    if args[1] == "C09HIST" {
+        // replay of one call history: `history=a>b>c` and `real_rayon_threads=k` lines of a C09 replay file
+        let text = std::fs::read_to_string(&args[2]).unwrap_or_default();
+        let get = |k: &str| text.lines().find_map(|l| l.strip_prefix(&format!("{}=", k)).map(|s| s.to_string()));
+        let (Some(hist), Some(threads)) = (get("history"), get("real_rayon_threads").and_then(|t| t.parse::<usize>().ok())) else {
+            eprintln!("no history= / real_rayon_threads= lines in {}", args[2]);
+            std::process::exit(2);
+        };
+        let inputs = pipeline::pipeline_inputs();
+        let sq: Vec<usize> = hist.split('>').filter_map(|x| x.parse().ok()).filter(|&i| i < inputs.len()).collect();
+        let Some(&last) = sq.last() else { std::process::exit(2) };
+        let pool = rayon::ThreadPoolBuilder::new().num_threads(threads).build().expect("pool");
+        let mut d = 0u64;
+        for &i in &sq {
+            println!("  run input {} ({})", i, inputs[i].name);
+            d = util::guarded(|| pool.install(|| pipeline::run_pipeline(&inputs[i])).total()).unwrap_or(1);
+        }
+        let alone_input = inputs[last].clone();
+        let alone = std::thread::Builder::new().stack_size(64 << 20).spawn(move || util::guarded(|| pipeline::run_pipeline(&alone_input).total()).unwrap_or(1)).expect("spawn").join().unwrap_or(1);
+        println!("digest of the last call after the history: {:016x}; digest of that input alone on a fresh thread: {:016x}", d, alone);
+        if d != alone {
+            println!("REPRODUCED: the result depends on the call history");
+            std::process::exit(1);
+        }
+        println!("NOT REPRODUCED: the history does not change the result");
+        std::process::exit(0);
+    }
     if args[1] == "C09REAL" {
         // conformance of the scheduling model with the implementation: the same pipeline on real rayon pools
         let runs = if args[2] == "thorough" { 10 } else { 3 };
